@@ -235,7 +235,8 @@ fn parse_players_and_teams(packets: Vec<Vec<u8>>) -> GDResult<(Vec<Player>, Vec<
                 continue;
             }
 
-            buf.move_cursor(1)?;
+            // the byte just read is the first character of the field's name
+            buf.move_cursor(-1)?;
 
             let field = buf.read_string::<Utf8Decoder>(None)?;
             if field.is_empty() {
